@@ -134,7 +134,8 @@ def gen_scenario(ch: Choices, calm: bool, no_cb_reconnect: bool = False, tier: s
                 inflight[d] -= 1
                 budget[y] -= 1
         elif k == 2 and budget[y] > 0 and not callback[d] and (y, x, sid) not in dropped:
-            script.append(("recv", y, x, sid, "nonblock", kind_of[d]))
+            # a receive that may find nothing: non-blocking, or blocking with a time-out short enough to expire
+            script.append(("recv", y, x, sid, "nonblock" if calm else ch.pick(["nonblock", "nonblock", "timed"]), kind_of[d]))
             budget[y] -= 1
         elif k == 3 and not calm and (x, y, sid) not in dropped and not reconnects:
             script.append(("drop", x, y, sid))
@@ -349,6 +350,8 @@ def run(ch: Choices, opts: Dict[str, Any]) -> Dict[str, Any]:
                         fn = {"plain": s.recv, "structured": s.recv_structured, "silent": s.recv_silent}[ev[5]]
                         if mode == "nonblock":
                             r = fn(block=False)
+                        elif mode == "timed":
+                            r = fn(block=True, timeout=0.25)
                         else:
                             r = fn(block=True, timeout=5.0)
                         fn = None
